@@ -37,6 +37,7 @@ struct fn_fd {
 	int addr;			/* address index this socket was connected to (-1) */
 	int closed;
 	int hup_on_eof;			/* report POLLHUP together with the EOF answer */
+	int lowat;			/* SO_RCVLOWAT set on this socket (0/1: the default) - a property of the kernel socket that outlives requests */
 };
 static struct fn_fd fn_fds[FK_MAXFD];
 
@@ -92,6 +93,20 @@ fn_head(struct fn_list * L)
 	return ((L->h < L->n && L->a[L->h].at <= fk_clock_us) ? &L->a[L->h] : NULL);
 }
 
+int __real_setsockopt(int, int, int, const void *, socklen_t);
+int __wrap_setsockopt(int, int, int, const void *, socklen_t);
+int
+__wrap_setsockopt(int fd, int level, int opt, const void * val, socklen_t len)
+{
+	int lfd = fk_logical(fd);
+
+	if (lfd < 0)
+		return (__real_setsockopt(fd, level, opt, val, len));
+	if (level == SOL_SOCKET && opt == SO_RCVLOWAT && val != NULL && len >= (socklen_t)sizeof(int))
+		fn_fds[lfd].lowat = *(const int *)val;
+	return (0);
+}
+
 static int
 fn_ready(int lfd)
 {
@@ -102,7 +117,17 @@ fn_ready(int lfd)
 	if (F->closed)
 		return (0);
 	if ((a = fn_head(&F->rx)) != NULL) {
-		fl |= FK_IN;
+		if (F->lowat > 1) {
+			/* readable only once that many bytes are there (or the stream has ended / failed) */
+			long avail = 0;
+			int k, forced = 0;
+			for (k = F->rx.h; k < F->rx.n && F->rx.a[k].at <= fk_clock_us; k++) {
+				if (F->rx.a[k].kind == FN_DATA) avail += F->rx.a[k].n;
+				else if (F->rx.a[k].kind == FN_EOF || F->rx.a[k].kind == FN_ERR) { forced = 1; break; }
+			}
+			if (avail >= F->lowat || forced) fl |= FK_IN;
+		} else
+			fl |= FK_IN;
 		if (a->kind == FN_EOF && F->hup_on_eof) fl |= FK_HUP;
 	}
 	if (fn_head(&F->ax) != NULL) fl |= FK_IN;
